@@ -414,6 +414,16 @@ class _Expr(ast.NodeTransformer):
         node.ifs = ifs
         return node
 
+    def visit_Compare(self, node: ast.Compare) -> ast.AST:
+        self.generic_visit(node)
+        if len(node.ops) == 1 and isinstance(node.ops[0], (ast.Is, ast.IsNot)) and isinstance(node.left, ast.Constant) and isinstance(
+            node.comparators[0], ast.Constant
+        ) and all(isinstance(c.value, (bool, type(None))) for c in (node.left, node.comparators[0])):
+            self.changed = True
+            same = node.left.value is node.comparators[0].value
+            return _loc(ast.Constant(value=same == isinstance(node.ops[0], ast.Is)), node)
+        return node
+
     def visit_UnaryOp(self, node: ast.UnaryOp) -> ast.AST:
         self.generic_visit(node)
         if isinstance(node.op, ast.Not):
@@ -626,6 +636,14 @@ def _effects_before(e: ast.AST, name: str) -> bool:
     return found and seen_effect
 
 
+def _inert(e: ast.expr) -> bool:
+    """Names, constants and text built from them: evaluating it has no effect and cannot fail."""
+    for n in ast.walk(e):
+        if not isinstance(n, (ast.Name, ast.Constant, ast.JoinedStr, ast.FormattedValue, ast.Load, ast.Tuple)):
+            return False
+    return True
+
+
 def _all_loads(n: ast.AST, name: str) -> int:
     return sum(1 for x in ast.walk(n) if isinstance(x, ast.Name) and x.id == name and isinstance(x.ctx, ast.Load))
 
@@ -720,6 +738,20 @@ class Canon:
     def stmt(self, s: ast.stmt, rest: List[ast.stmt], ctx: str, is_last: bool,
              prev: List[ast.stmt]) -> Optional[Tuple[List[ast.stmt], int]]:
         """A rewrite of `s` (and of `consumed` following statements), or None."""
+        if isinstance(s, JUMPS) and rest:
+            return [s], len(rest)  # unreachable statements
+        if (
+            isinstance(s, ast.Assign) and _plain_target(s) is not None and rest and isinstance(rest[0], ast.If)
+            and isinstance(s.value, (ast.Tuple, ast.List, ast.Dict, ast.Set, ast.JoinedStr, ast.ListComp, ast.DictComp))
+        ):
+            # S33 a display is never None: `x = (a, b)` ; `if x is None: ...`
+            t0 = rest[0].test
+            if (
+                isinstance(t0, ast.Compare) and len(t0.ops) == 1 and isinstance(t0.ops[0], (ast.Is, ast.IsNot))
+                and isinstance(t0.left, ast.Name) and t0.left.id == _plain_target(s) and _is_const(t0.comparators[0], None)
+            ):
+                rest[0].test = _loc(ast.Constant(value=isinstance(t0.ops[0], ast.IsNot)), t0)
+                return [s, rest[0]], 1
         if isinstance(s, (ast.If, ast.Assign, ast.Return, ast.Expr, ast.AnnAssign, ast.For, ast.AsyncFor)):
             r8 = self._unwalrus(s)
             if r8 is not None:
@@ -881,21 +913,37 @@ class Canon:
                     first = _loc(ast.Assign(targets=[ast.Name(id=x1, ctx=ast.Store())], value=ie), s)
                     ren = _Subst(x, ast.Name(id=x1, ctx=ast.Load()))
                     return [first] + [ren.visit(r_) for r_ in rest], len(rest)
-            # S26 flag variables: `if c: ..; flag = True else: ..; flag = False` ; REST(flag)
-            #     ->  REST is duplicated into both branches (where the flag is a constant)
-            if s.orelse and rest and not jumps(s.body) and not jumps(s.orelse) and len(rest) <= 8:
-                ta, tb = _plain_target(s.body[-1]), _plain_target(s.orelse[-1])
-                if (
-                    ta is not None and ta == tb
-                    and isinstance(s.body[-1].value, ast.Constant) and isinstance(s.orelse[-1].value, ast.Constant)  # type: ignore[attr-defined]
-                    and s.body[-1].value.value is not s.orelse[-1].value.value  # type: ignore[attr-defined]
-                    and isinstance(s.body[-1].value.value, (bool, type(None)))  # type: ignore[attr-defined]
-                    and any(_all_loads(r_, ta) for r_ in rest)
-                    and not any(isinstance(n, (ast.FunctionDef, ast.AsyncFunctionDef, ast.ClassDef)) for r_ in rest for n in ast.walk(r_))
-                ):
-                    s.body = s.body + [copy.deepcopy(r_) for r_ in rest]
-                    s.orelse = s.orelse + list(rest)
-                    return [s], len(rest)
+            # S26 flag / record variables: every branch of an if/elif/else ends by assigning x, at least once a
+            #     constant or a tuple literal, and the few statements that follow take x apart:
+            #     `if c: A; x = K1 else: B; x = K2` ; REST(x)  ->  REST is moved into every branch
+            if s.orelse and rest and len(rest) <= 8 and not any(
+                isinstance(n, (ast.FunctionDef, ast.AsyncFunctionDef, ast.ClassDef)) for r_ in rest for n in ast.walk(r_)
+            ):
+                leaves: List[List[ast.stmt]] = []
+
+                def collect(branch: List[ast.stmt]) -> Optional[str]:
+                    if not branch or jumps(branch):
+                        return None
+                    last = branch[-1]
+                    t_ = _plain_target(last)
+                    if t_ is not None:
+                        leaves.append(branch)
+                        return t_
+                    if isinstance(last, ast.If) and last.orelse and len(branch) == 1:
+                        a_, b_ = collect(last.body), collect(last.orelse)
+                        return a_ if a_ is not None and a_ == b_ else None
+                    return None
+
+                xa, xb = collect(s.body), collect(s.orelse)
+                if xa is not None and xa == xb and any(_all_loads(r_, xa) for r_ in rest):
+                    vals = [lf[-1].value for lf in leaves]  # type: ignore[attr-defined]
+                    structured = [v for v in vals if isinstance(v, (ast.Constant, ast.Tuple))]
+                    distinct = len({ast.dump(v) for v in vals}) > 1
+                    consts_ok = all(isinstance(v.value, (bool, type(None))) for v in vals if isinstance(v, ast.Constant))
+                    if structured and distinct and consts_ok:
+                        for k_, lf in enumerate(leaves):
+                            lf.extend(copy.deepcopy(r_) for r_ in rest)
+                        return [s], len(rest)
             # S25 a test that an enclosing `if` has already decided
             if self._propagate(s):
                 return [s], 0
@@ -928,7 +976,6 @@ class Canon:
                 isinstance(t, ast.Tuple) and isinstance(s.value, ast.Tuple) and len(t.elts) == len(s.value.elts)
                 and all(isinstance(x, ast.Name) for x in t.elts) and not any(isinstance(x, ast.Starred) for x in s.value.elts)
                 and not _mentions(s.value, {x.id for x in t.elts})  # type: ignore[attr-defined]
-                and all(_simple(v) or k == 0 for k, v in enumerate(s.value.elts))
             ):
                 return [_loc(ast.Assign(targets=[a], value=v), s) for a, v in zip(t.elts, s.value.elts)], 0
             # S6 default + override: `x = a` ; `if c(x): x = b(x)`  ->  `x1 = a` ; `if c(x1): x = b(x1) else: x = x1`
@@ -1609,6 +1656,7 @@ class Canon:
                     stable_root = (
                         facts.stores.get(root, 0) == 0
                         or (root in facts.loop_targets and facts.stores.get(root, 0) == 1)
+                        or (facts.stores.get(root, 0) == 1 and any(_plain_target(b_) == root for b_ in blk[:i]))
                     )
                     if stable_root and not (set(attrs) & (self.mutable_attrs | facts.attr_stores)) and root != name:
                         # every load must come after the assignment inside this block
@@ -1621,13 +1669,19 @@ class Canon:
                             return True
                 if nloads == 1 and i + 1 < len(blk):
                     nxt = blk[i + 1]
+                    # an inert value (names, constants, text built from them) may enter a `with` / `try` body:
+                    # it cannot raise, so it does not matter on which side of the boundary it is evaluated
+                    if isinstance(nxt, (ast.With, ast.AsyncWith, ast.Try)) and nxt.body and _inert(value) and not any(
+                        _all_loads(it.context_expr, name) for it in getattr(nxt, "items", [])
+                    ):
+                        nxt = nxt.body[0]
                     heads = _head_exprs(nxt)
                     total = sum(_unconditional_loads(h, name) for h in heads)
                     if total == 1 and _all_loads(nxt, name) == 1:
                         has_await = any(isinstance(n, ast.Await) for n in ast.walk(value))
                         if has_await and not isinstance(self.fn, ast.AsyncFunctionDef):
                             continue
-                        if not isinstance(value, ast.Constant) and any(_effects_before(h, name) for h in heads):
+                        if not _inert(value) and any(_effects_before(h, name) for h in heads):
                             continue
                         sub = _Subst(name, value)
                         for h in heads:
